@@ -283,6 +283,44 @@ def run(tier, seed):
     rep.notes["model_mismatches"] = len(f)
     rep.notes["programs"] = len(progs)
     rep.notes["block_outcomes"] = len(BLOCKS)
+    # a manager object owns exactly one run of its generator: entering it a second time (after its block ended, or while it
+    # is active) is refused, the generator body never runs twice -- as with asynccontextmanager
+    for when in ("after",):     # (re-entering while the first block is still active is misuse on which the two libraries differ)
+        def reenter(lib):
+            steps = []
+
+            @lib
+            async def ctx():
+                steps.append("start")
+                yield 1
+                steps.append("end")
+
+            async def go():
+                cm = ctx()
+                if when == "after":
+                    async with cm:
+                        pass
+                    try:
+                        async with cm:
+                            steps.append("second block ran")
+                    except BaseException as e:  # noqa
+                        steps.append("refused")
+                else:
+                    async with cm:
+                        try:
+                            async with cm:
+                                steps.append("second block ran")
+                        except BaseException as e:  # noqa
+                            steps.append("refused")
+                return steps
+            try:
+                return drive(go())
+            except BaseException as e:  # noqa
+                return ["raised %s" % type(e).__name__] + steps
+        ra, rs = reenter(a.contextmanager), reenter(contextlib.asynccontextmanager)
+        rep.count(("reenter", when), True)
+        if ra != rs or ra.count("start") != 1 or "second block ran" in ra:
+            rep.violation("contextmanager:reenter", {"when": when, "why": "entering the same manager object a second time (%s the first block): asyncstdlib %r, contextlib %r" % (when, ra, rs)})
     import kwprobe
     kwprobe.probe(rep, "factory", "contextmanager:kwargs")
     if not proofs_ok:
